@@ -234,7 +234,7 @@ def _run(ctx, nh, scratch):
 
     # ---- 4. compare
     stats = dict(calls=0, raised=0, ok=0, unpredicted=0, decimal_reads=0, rounded_reads=0, by_api={}, o2=0,
-                 prec_changes=0, raised_where_generator_expected_ok=0, raised_by={}, rebuilt_runs=0)
+                 prec_changes=0, raised_where_generator_expected_ok=0, raised_by={}, rebuilt_runs=0, model_returns_but_call_raised=0)
     minimised = set()
     for h, (hg, recs) in enumerate(zip(hists, hrecs)):
         leaked = None              # first cell outside the model's frame that an earlier call of this history changed
@@ -324,6 +324,12 @@ def _run(ctx, nh, scratch):
                     stats["unpredicted"] += 1
                 continue
             cells, decs = m
+            if decs is not None and res["st"] == "raised":
+                # the call raised where the model call says it returns (e.g. the tree under test rejects the schema at parse
+                # time, or an object built by an earlier call is missing): how far it got is not predicted - other properties
+                # (C03/C11/C16) own that question; the frame (no cell outside the model's) was still checked above
+                stats["model_returns_but_call_raised"] += 1
+                continue
             if r["ctx"] is not None and variant == "Current" and r["ctx"] != cells:
                 ctx.violation("corr:globals", case(), impl=dict(decimal_context_prec_inexact_rounded=r["ctx"]),
                               model=dict(gstate_after=cells, abstract_call=hg.abstract[k]),
@@ -349,6 +355,8 @@ def _run(ctx, nh, scratch):
     if stats["o2"]:
         ctx.notes["observation_O2"] = ("writer(..., metadata=md) added avro.schema/avro.codec to the caller's md in %d calls "
                                        "(metadata is neither schema nor data: recorded, not flagged)" % stats["o2"])
+    if stats["model_returns_but_call_raised"] > 0.25 * max(8, stats["decimal_reads"] + stats["model_returns_but_call_raised"]):
+        raise RuntimeError("model tie degenerate: %d predicted-returning calls raised" % stats["model_returns_but_call_raised"])
     if stats["raised"] > 0.45 * stats["calls"]:
         raise RuntimeError("generator degenerate: %d of %d calls raised" % (stats["raised"], stats["calls"]))
     hg, recs = hists[0], hrecs[0]
